@@ -177,6 +177,24 @@ func c02UnrankStmt(m, d int, loop bool, idx int64) *c02Node {
 type c02Builder struct {
 	next int
 	feat map[string]bool
+	// stray: every 结束循环 / 继续循环 of the tree is replaced by a call of a method whose OWN
+	// body executes that statement outside any loop of its own (c02StrayDefs): it acts on no
+	// loop of the caller, the call is rejected inside the wrapper, which handles the exception
+	stray bool
+}
+
+func c02Show(args ...zn.Expr) zn.Stmt {
+	return zn.ExprStmt{E: zn.Call{Name: "显示", Args: args}}
+}
+
+// 跳 / 续: the loop statement alone (inside a 如果 for 续); 试跳 / 试续: call it, trace, handle.
+var c02StrayDefs = []zn.Stmt{
+	zn.Func{Name: "跳", Body: []zn.Stmt{c02Show(zn.Str{Val: "跳"}), zn.Break{}}},
+	zn.Func{Name: "续", Body: []zn.Stmt{c02Show(zn.Str{Val: "续"}), zn.If{Cond: zn.Var{Name: "真"}, Then: []zn.Stmt{zn.Continue{}}}, c02Show(zn.Str{Val: "续后"})}},
+	zn.Func{Name: "试跳", Body: []zn.Stmt{zn.ExprStmt{E: zn.Call{Name: "跳"}}, c02Show(zn.Str{Val: "跳回"})},
+		Catches: []zn.Catch{{Class: "异常", Body: []zn.Stmt{c02Show(zn.Str{Val: "拦跳"})}}}},
+	zn.Func{Name: "试续", Body: []zn.Stmt{zn.ExprStmt{E: zn.Call{Name: "续"}}, c02Show(zn.Str{Val: "续回"})},
+		Catches: []zn.Catch{{Class: "异常", Body: []zn.Stmt{c02Show(zn.Str{Val: "拦续"})}}}},
 }
 
 func (b *c02Builder) id() int { b.next++; return b.next }
@@ -230,8 +248,14 @@ func (b *c02Builder) stmt(n *c02Node) []zn.Stmt {
 		// a statement that runs, so the expression stays the block's / program's final expression
 		return []zn.Stmt{zn.ExprStmt{E: b.num()}, zn.Func{Name: fmt.Sprintf("定%d", b.id()), Body: []zn.Stmt{zn.Return{Val: zn.Num{Lit: "0"}}}}}
 	case "B":
+		if b.stray {
+			return []zn.Stmt{zn.ExprStmt{E: zn.Call{Name: "试跳"}}}
+		}
 		return []zn.Stmt{zn.Break{}}
 	case "C":
+		if b.stray {
+			return []zn.Stmt{zn.ExprStmt{E: zn.Call{Name: "试续"}}}
+		}
 		return []zn.Stmt{zn.Continue{}}
 	case "If":
 		s := zn.If{Cond: b.cond(n.conds[0]), Then: b.body(n.bodies[0], true)}
@@ -306,25 +330,33 @@ type c02Case struct {
 	M      int    `json:"nodes"`
 	Idx    int64  `json:"index"`
 	Method bool   `json:"as_method"`
+	Stray  bool   `json:"loop_statements_in_callees,omitempty"`
 	Source string `json:"source"`
 }
 
 const c02Depth = 3
 
-func c02Make(m int, idx int64, method bool) (*zn.Program, map[string]bool) {
+func c02Make(m int, idx int64, method, stray bool) (*zn.Program, map[string]bool) {
 	sk := c02UnrankBody(m, c02Depth, false, idx)
-	b := &c02Builder{feat: map[string]bool{}}
+	b := &c02Builder{feat: map[string]bool{}, stray: stray}
+	pre := []zn.Stmt{c02Tracer}
+	if stray {
+		pre = append(pre, c02StrayDefs...)
+	}
 	if method {
 		f := zn.Func{Name: "F", Body: b.body(sk, true)}
-		return &zn.Program{Body: []zn.Stmt{c02Tracer, f, b.trace(zn.Num{Lit: "1000"}), zn.Return{Val: zn.Call{Name: "F"}}}}, b.feat
+		return &zn.Program{Body: append(pre, f, b.trace(zn.Num{Lit: "1000"}), zn.Return{Val: zn.Call{Name: "F"}})}, b.feat
 	}
-	return &zn.Program{Body: append([]zn.Stmt{c02Tracer}, b.body(sk, false)...)}, b.feat
+	return &zn.Program{Body: append(pre, b.body(sk, false)...)}, b.feat
 }
 
-func c02Check(m int, idx int64, method bool) (*mc.Failure, *zn.Program) {
-	prog, feat := c02Make(m, idx, method)
+func c02Check(m int, idx int64, method, stray bool) (*mc.Failure, *zn.Program) {
+	prog, feat := c02Make(m, idx, method, stray)
+	if stray && !feat["B"] && !feat["C"] {
+		return nil, nil // no loop statement in this tree: the plain run is the same program
+	}
 	src := zn.Render(prog, nil)
-	cs := func() json.RawMessage { return mc.J(c02Case{M: m, Idx: idx, Method: method, Source: src}) }
+	cs := func() json.RawMessage { return mc.J(c02Case{M: m, Idx: idx, Method: method, Stray: stray, Source: src}) }
 	rf := zn.NewRef()
 	want, werr, aborted := rf.RunProgram(prog, nil)
 	if aborted {
@@ -379,7 +411,7 @@ func init() {
 	mc.Register(&mc.Check{
 		ID:    "C02",
 		Level: "exploration",
-		Rule:  "E1 exhaustive by rank/unrank: every statement tree with <= k statement nodes and nesting <= 3 over {输出, expression, 结束循环, 继续循环 (inside loops only), 如果 (1/2/3 branches, every truth assignment), 每当 (2 passes via a dedicated counter; 2 passes via a bare flag variable that the body clears), 遍历 over [10,20] with 1/2/0 variables, over a dictionary with 2 variables, over an empty list}; every expression statement is followed by a method definition (hoisted, so the expression stays final); the two-variable list loop changes its index variable in place (自增) and traces it; a trace statement is planted before every statement and at the end of every block; each tree is run as program body and as method body. Distinct by construction; non-trivial = contains at least one compound statement.",
+		Rule:  "E1 exhaustive by rank/unrank: every statement tree with <= k statement nodes and nesting <= 3 over {输出, expression, 结束循环, 继续循环 (inside loops only), 如果 (1/2/3 branches, every truth assignment), 每当 (2 passes via a dedicated counter; 2 passes via a bare flag variable that the body clears), 遍历 over [10,20] with 1/2/0 variables, over a dictionary with 2 variables, over an empty list}; every expression statement is followed by a method definition (hoisted, so the expression stays final); the two-variable list loop changes its index variable in place (自增) and traces it; a trace statement is planted before every statement and at the end of every block; each tree is run as program body and as method body; every tree of <= 4 (5 thorough) nodes that contains 结束循环 / 继续循环 is run again with each of them moved into a callee (a method whose own body executes the loop statement outside any loop of its own, called through a wrapper that handles the exception): it must act on no loop of the caller. Distinct by construction; non-trivial = contains at least one compound statement.",
 		Assumptions: []string{
 			"reference interpreter written from manual ch.7/8 is the oracle (result + ordered trace)",
 			"the program result is compared only when the statement defines it (an 输出 ran, or the last top-level statement is an expression)",
@@ -415,7 +447,7 @@ func init() {
 						return
 					}
 					c.CaseIdx(idx)
-					f, prog := c02Check(m, k/2, k%2 == 1)
+					f, prog := c02Check(m, k/2, k%2 == 1, false)
 					c.Eval(m > 1)
 					c.Stat(fmt.Sprintf("programs_%d_nodes", m), 1)
 					if f != nil {
@@ -428,6 +460,42 @@ func init() {
 				base += total * 2
 				c.Bound(fmt.Sprintf("nodes_%d", m), fmt.Sprintf("complete: %d trees x 2 (program body / method body)", total))
 			}
+			// the same trees with every 结束循环 / 继续循环 moved into a callee (c02StrayDefs)
+			KS := 4
+			if c.Tier == "thorough" {
+				KS = 5
+			}
+			base = 1 << 40
+			for m := 2; m <= KS; m++ {
+				total := c02Bodies(m, c02Depth, false)
+				mm, b0 := m, base
+				c.Describe = func(idx int64) json.RawMessage {
+					k := idx - b0
+					return mc.J(c02Case{M: mm, Idx: k / 2, Method: k%2 == 1, Stray: true})
+				}
+				for k := int64(0); k < total*2; k++ {
+					idx := base + k
+					if !c.Mine(idx) {
+						continue
+					}
+					if c.Due(0x3FF) {
+						c.Note(fmt.Sprintf("deadline hit at %d nodes (loop statements in callees)", m))
+						return
+					}
+					c.CaseIdx(idx)
+					f, prog := c02Check(m, k/2, k%2 == 1, true)
+					if prog == nil {
+						continue
+					}
+					c.Eval(true)
+					c.Stat("programs_with_loop_statements_in_callees", 1)
+					if f != nil {
+						c.Fail(*f)
+					}
+				}
+				base += total * 2
+			}
+			c.Bound("loop_statements_in_callees", fmt.Sprintf("complete: every tree of 2..%d nodes that contains 结束循环 / 继续循环, x 2", KS))
 			c02NonBool(c)
 		},
 		Replay: func(c *mc.Ctx, raw json.RawMessage) {
@@ -440,7 +508,7 @@ func init() {
 				c02NonBool(c)
 				return
 			}
-			if f, _ := c02Check(cs.M, cs.Idx, cs.Method); f != nil {
+			if f, _ := c02Check(cs.M, cs.Idx, cs.Method, cs.Stray); f != nil {
 				c.Fail(*f)
 			}
 		},
